@@ -16,6 +16,12 @@ def run(tier):
     # (1) bounded exhaustive model checking: big-natural layer and the word-serial algorithms (Tier A)
     run.mc("MC_BigNat", env={"BOUND": 16 if tier == "quick" else 64}, timeout=600)
     run.mc("MC_Params381", timeout=300)
+    # Tier A: fp_inverse (binary extended Euclid on the Montgomery residue, fixed-width halvings), Tonelli-Shanks as coded in Fr::square_root,
+    # the exponent square root of Fq -- every element of toy fields; the coded Tonelli-Shanks loop does not terminate on a non-square (expected)
+    for cfg in (["inv251", "inv8191", "ts769", "s34_1019"] if tier == "quick" else ["inv251", "inv1021", "inv8191", "ts97", "ts769", "ts12289", "s34_1019"]):
+        run.mc("FieldAlg", "MC_FieldAlg_%s.cfg" % cfg, timeout=900)
+    r = run.mc("FieldAlg", "MC_FieldAlg_ts97_nonsq.cfg", timeout=300, expect_ok=False)
+    if "TsTerminatesOnNonSquares is violated" not in r.out: raise vlib.Infra("FieldAlg: the non-square configuration was not rejected")
     # unbounded (TLAPS): Montgomery reduction is exact and lands in [0, 2p) for every radix, modulus and input below R p
     t0 = __import__("time").time(); nob, _ = vlib.tlapm("RedcTheorem")
     run.mc_runs.append({"module": "RedcTheorem", "role": "TLAPS proof (tlapm, Z3): RedcExact, RedcRange", "obligations_proved": nob, "wall_s": round(__import__("time").time() - t0, 1)})
